@@ -60,6 +60,37 @@ Section Oracle.
   Definition split_last (l : list val) : option (list val * val) :=
     match rev l with [] => None | x :: t => Some (rev t, x) end.
 
+  (* a copy-on-write helper that amounts to "copy, then [o'] on the copy":
+     the original untouched, the copy appended; on an error no copy and nothing
+     changed.  [wn] = the warning count to judge the step with. *)
+  Definition cow_okb (pre : list val) (a : val) (o' : op) (r : res out) (wn : Z) (post : list val) : bool :=
+    match r with
+    | Ok _ =>
+        match split_last post with
+        | Some (old, b) => vals_eqb old pre && okb a o' r wn b
+        | None => false
+        end
+    | Err _ => vals_eqb post pre && okb a o' r wn a
+    end.
+  (* transform_<n>(g) is with_<n>(g(v)) where v is what the reference machine
+     reads for <n> on the original ([rd] = RdAlias / RdTarget), turned into the
+     value a scalar helper starts from (AliasModel.start_value: the definition
+     of the helper, not of the alias).  Whatever g does to its argument, the
+     original stays what it was.  The read reaches the alias, so a
+     DeprecatedAlias warns at least once whatever comes after. *)
+  Definition transform_okb (pre : list val) (a : val) (n : name) (rd : op) (wr : val -> op)
+             (g : hfn) (r : res out) (nw : Z) (post : list val) : bool :=
+    (if c_dep c && is_alias_op rd then 1 <=? nw else nw =? 0) &&
+    match start_value (typed h n) (fst (machine apply_tfn h c (abs c a) rd)) with
+    | Err e => res_out_eqb r (Err e) && vals_eqb post pre
+    | Ok v0 =>
+        match apply_hfn g v0 with
+        | Err e => res_out_eqb r (Err e) && vals_eqb post pre
+        | Ok v1 =>
+            cow_okb pre a (wr v1) r (if c_dep c && reaches_alias h c (wr v1) then 1 else 0) post
+        end
+    end.
+
   Definition xstep_okb (pre : list val) (o : xop) (ob : obs) : bool :=
     let '(r, n, post) := ob in
     match o with
@@ -95,6 +126,34 @@ Section Oracle.
         | Some a, Err _ => vals_eqb post pre && okb a (WrTarget x) r n a
         | None, _ => false
         end
+    | XTransformAlias i g =>
+        match nth_error pre i with
+        | Some a => transform_okb pre a (c_name c) RdAlias WrAlias g r n post
+        | None => false
+        end
+    | XUpdateAlias i (Some x) =>
+        match nth_error pre i with Some a => cow_okb pre a (WrAlias x) r n post | None => false end
+    | XUpdateAlias i None =>
+        match nth_error pre i with
+        | Some a => transform_okb pre a (c_name c) RdAlias WrAlias HId r n post
+        | None => false
+        end
+    | XResetAlias i =>
+        match nth_error pre i with Some a => cow_okb pre a DelAlias r n post | None => false end
+    | XTransformTarget i g =>
+        match nth_error pre i, c_path c with
+        | Some a, [SAttr t] => transform_okb pre a t RdTarget WrTarget g r n post
+        | _, _ => false
+        end
+    | XUpdateTarget i (Some x) =>
+        match nth_error pre i with Some a => cow_okb pre a (WrTarget x) r n post | None => false end
+    | XUpdateTarget i None =>
+        match nth_error pre i, c_path c with
+        | Some a, [SAttr t] => transform_okb pre a t RdTarget WrTarget HId r n post
+        | _, _ => false
+        end
+    | XResetTarget i =>
+        match nth_error pre i with Some a => cow_okb pre a DelTarget r n post | None => false end
     end.
 
   Fixpoint oracle (pre : list val) (os : list xop) (seen : list obs) : bool :=
